@@ -96,6 +96,12 @@ def run(ctx, res):
               "BEGIN:VTIMEZONE\r\nTZID:Q\r\nBEGIN:STANDARD\r\nDTSTART:19700101T000000\r\nTZOFFSETFROM:+0100\r\nTZOFFSETTO:+0100\r\nRRULE:BYDAY=1SU\r\nEND:STANDARD\r\nEND:VTIMEZONE\r\n",
               "BEGIN:VEVENT\r\nDURATION:P1000000000D\r\nEND:VEVENT\r\n", "BEGIN:VEVENT\r\nDTSTART;TZID=Europe/Berlin:00010101T000000\r\nEND:VEVENT\r\n",
               "BEGIN:VEVENT\r\nRDATE;TZID=America/New_York:99991231T235959,20200101T000000\r\nEND:VEVENT\r\n", "BEGIN:VEVENT\r\nRRULE:FREQ=YEARLY;BYMONTH=\r\nEND:VEVENT\r\n"]
+    # periods of every combination of kinds (date, floating, UTC, zoned start; date / date-time / duration end)
+    for a in ("20200101", "20200101T000000", "20200101T000000Z"):
+        for b in ("20200103", "20200103T000000", "20200103T000000Z", "P1D", "PT1H", "-PT1H", "P"):
+            corpus.append(f"BEGIN:VFREEBUSY\r\nFREEBUSY:{a}/{b}\r\nEND:VFREEBUSY\r\n")
+            corpus.append(f"BEGIN:VEVENT\r\nUID:u\r\nRDATE;VALUE=PERIOD:{a}/{b}\r\nSUMMARY:kept\r\nEND:VEVENT\r\n")
+    corpus.append("BEGIN:VFREEBUSY\r\nFREEBUSY;TZID=Europe/Berlin:20200101T000000/20200103T000000Z\r\nEND:VFREEBUSY\r\n")
     cases = [("corpus", c) for c in corpus] + cases
     res.rule = ("malformed inputs: structure-aware mutations (1-3 of: delete/duplicate/swap line, insert token, truncate, splice token "
                 "line, cut, hostile TZID parameter, stray BEGIN/END) of every fixture and of generated calendars, token soup, nesting up "
